@@ -493,18 +493,30 @@ func (k *Kernel) dump() string {
 	return sb.String()
 }
 
-// LibraryStacks returns, for every goroutine that has a scrapligo (library, not harness) frame
-// on its stack, its state line and the innermost scrapligo function. With full, the frames too.
+// LibraryStacks returns, for every goroutine of the calling goroutine's synctest bubble that has a
+// scrapligo (library, not harness) frame on its stack, its state line and the innermost scrapligo
+// function. With full, the frames too. Goroutines left behind by earlier bubbles are skipped.
 func LibraryStacks(full bool) string {
 	buf := make([]byte, 1<<20)
 	n := runtime.Stack(buf, true)
+	blocks := strings.Split(string(buf[:n]), "\n\n")
+	tag := ""
+	if len(blocks) > 0 {
+		hdr := strings.SplitN(blocks[0], "\n", 2)[0]
+		if i := strings.Index(hdr, "synctest bubble "); i >= 0 {
+			tag = strings.TrimRight(hdr[i:], "]:")
+		}
+	}
 	var sb strings.Builder
-	for _, blk := range strings.Split(string(buf[:n]), "\n\n") {
+	for _, blk := range blocks {
 		if !strings.Contains(blk, "github.com/scrapli/scrapligo/") {
 			continue
 		}
 		lines := strings.Split(blk, "\n")
 		if len(lines) == 0 {
+			continue
+		}
+		if tag != "" && !strings.Contains(lines[0], tag+"]") && !strings.Contains(lines[0], tag+",") {
 			continue
 		}
 		inner := ""
